@@ -59,7 +59,12 @@ func rowByStruct(s string) *hierRow {
 	return nil
 }
 
+// a named function type has the right structure but is not the type the resolvers look for: accepted nowhere
+type namedNoteCallback func(context.Context, vocab.ActivityStreamsNote) error
+type namedNotePredicate func(context.Context, vocab.ActivityStreamsNote) (bool, error)
+
 var wrongShapes = []interface{}{
+	namedNoteCallback(func(context.Context, vocab.ActivityStreamsNote) error { return nil }),
 	nil, 42, "x", func() {}, func(context.Context) error { return nil },
 	func(vocab.ActivityStreamsNote) error { return nil },
 	func(context.Context, vocab.ActivityStreamsNote) {},
@@ -75,6 +80,11 @@ var wrongShapes = []interface{}{
 
 func runCase(c *c14case, r *rng) {
 	ctx := context.Background()
+	if r.chance(1, 3) { // dispatch does not depend on the context: one that is already done changes nothing
+		cctx, cancel := context.WithCancel(ctx)
+		cancel()
+		ctx = cctx
+	}
 	var names []string
 	rets := make([]error, len(c.cbs))
 	var cbs []interface{}
@@ -128,8 +138,9 @@ func runCase(c *c14case, r *rng) {
 		}
 		var pred interface{}
 		if c.pred == "" {
-			// shape 7 is a legal predicate; a plain callback signature is not
-			ws := append(append([]interface{}{}, wrongShapes[:7]...), wrongShapes[8:]...)
+			// shape 8 is a legal predicate; a plain callback signature is not
+			ws := append(append([]interface{}{}, wrongShapes[:8]...), wrongShapes[9:]...)
+			ws = append(ws, namedNotePredicate(func(context.Context, vocab.ActivityStreamsNote) (bool, error) { return true, nil }))
 			ws = append(ws, func(context.Context, vocab.ActivityStreamsNote) error { return nil })
 			pred = ws[r.intn(len(ws))]
 		} else {
